@@ -3901,6 +3901,19 @@ def _tie(spec, repo=None):
                     + [f"SRVerif.Properties.{m}" for m in spec.property_modules])
     if rc == 0:
         return done("ok", f"ok (sha256 {sha})")
+    # Which part failed?  The equivalence proofs (gen_f_eq_model) are the tie; the property modules are THEOREMS
+    # stated about the generated functions.  When the equivalence still builds, the generated functions are proved
+    # equal to the model, and a property module that does not build is a failing theorem of /verif (never a
+    # limitation of the translator): a failed proof obligation, not "unavailable".
+    rc_eq, _log_eq = _lake(["build", spec.module_name(spec.equiv_file)])
+    if rc_eq == 0:
+        where = re.findall(r"error: (\S+\.lean:\d+:\d+)", log)[:10]
+        if not where:  # lake failed without naming a Lean source position: not a statement about the theorems
+            from harness.common import Infra
+            raise Infra("lake build of the property modules failed without a Lean error:\n" + log[-2000:])
+        return done("broken", f"ok (sha256 {sha}); but theorems stated about the generated functions fail: {short(log)}",
+                    failing=[f"theorem module depending on the translator tie does not build: {w}" for w in where],
+                    log=log[-3000:])
     witnesses, err = refute(spec, sigs)
     if witnesses:
         against = "the model" if spec.refute_against == "the hand-written model" else spec.refute_against
